@@ -322,4 +322,245 @@ theorem try_meets_spec {row : Row} {tail : Nat} {blk : Blk} {a : TryArgs} {cfg :
     · exact hs.2.2 hew
 
 
+
+/-! ### the WHC search -/
+
+theorem foldE_inv {σ β ε : Type} (f : σ → β → Except ε σ) (I : σ → Prop) (P : β → Prop)
+    (hstep : ∀ s b s', I s → P b → f s b = .ok s' → I s') :
+    ∀ (l : List β) (s s' : σ), (∀ b ∈ l, P b) → I s → foldE f s l = .ok s' → I s' := by
+  intro l
+  induction l with
+  | nil => intro s s' _ hi h; simp only [foldE, Except.ok.injEq] at h; exact h ▸ hi
+  | cons b bs ih =>
+    intro s s' hP hi h
+    unfold foldE at h
+    split at h
+    · rename_i s1 hs1
+      exact ih s1 s' (fun x hx => hP x (List.mem_cons_of_mem _ hx)) (hstep s b s1 hi (hP b List.mem_cons_self) hs1) h
+    · cases h
+
+theorem mem_multiplesUpTo {step stop x : Nat} (hs : 0 < step) (h : x ∈ multiplesUpTo step stop) :
+    0 < x ∧ x % step = 0 ∧ x ≤ stop := by
+  unfold multiplesUpTo at h
+  simp only [List.mem_map, List.mem_range] at h
+  obtain ⟨i, hi, rfl⟩ := h
+  refine ⟨Nat.mul_pos (by omega) hs, Nat.mul_mod_left _ _, ?_⟩
+  have h1 : (i + 1) * step ≤ stop / step * step := Nat.mul_le_mul_right step (by omega)
+  have h2 : stop / step * step ≤ stop := Nat.div_mul_le_self stop step
+  omega
+
+theorem mem_hwPairs {ub : Blk} {sh sw : Nat} {p : Nat × Nat} (h : p ∈ hwPairs ub sh sw) :
+    p.1 ∈ multiplesUpTo ub.height sh ∧ p.2 ∈ multiplesUpTo ub.width sw := by
+  unfold hwPairs at h
+  simp only [List.mem_flatMap, List.mem_map] at h
+  obtain ⟨hh, hhm, w, hwm, rfl⟩ := h
+  exact ⟨hhm, hwm⟩
+
+/-- what is known about a remembered candidate -/
+def GoodFound (c : Ctx) (sh sw sd : Nat) (f : Found) : Prop :=
+  (0 < f.ofmBlock.width ∧ f.ofmBlock.width % c.row.ofmUblock.width = 0 ∧ f.ofmBlock.width ≤ sw) ∧
+  (0 < f.ofmBlock.height ∧ f.ofmBlock.height % c.row.ofmUblock.height = 0 ∧ f.ofmBlock.height ≤ sh) ∧
+  (0 < f.ofmBlock.depth ∧ f.ofmBlock.depth % c.row.ofmUblock.depth = 0 ∧ f.ofmBlock.depth ≤ sd) ∧
+  c.layoutFor f.ofmBlock = .ok (some f.layout) ∧ f.ifmBlock = c.ifmBlockFor f.ofmBlock
+
+def StateGood {α : Type} (c : Ctx) (sh sw sd : Nat) (s : SearchState α) : Prop :=
+  ∀ cost f, s.best = some (cost, f) → GoodFound c sh sw sd f
+
+theorem searchStep_good {α : Type} (ops : CostOps α) (c : Ctx) (e : SearchEnv) (sh sw sd d : Nat)
+    (hd : 0 < d ∧ d % c.row.ofmUblock.depth = 0 ∧ d ≤ sd)
+    (s : SearchState α) (hw : Nat × Nat) (s' : SearchState α)
+    (hs : StateGood c sh sw sd s)
+    (hhw : (0 < hw.1 ∧ hw.1 % c.row.ofmUblock.height = 0 ∧ hw.1 ≤ sh) ∧
+           (0 < hw.2 ∧ hw.2 % c.row.ofmUblock.width = 0 ∧ hw.2 ≤ sw))
+    (h : searchStep ops c e d s hw = .ok s') : StateGood c sh sw sd s' := by
+  unfold searchStep at h
+  dsimp only at h
+  split at h
+  · simp only [Except.ok.injEq] at h; exact h ▸ hs
+  · split at h
+    · cases h
+    · simp only [Except.ok.injEq] at h; subst h
+      intro cost f hf; exact hs cost f hf
+    · rename_i layout hlay
+      have good : GoodFound c sh sw sd ⟨⟨hw.2, hw.1, d⟩, c.ifmBlockFor ⟨hw.2, hw.1, d⟩, layout⟩ :=
+        ⟨hhw.2, hhw.1, hd, hlay, rfl⟩
+      repeat' split at h
+      all_goals first
+        | (simp only [Except.ok.injEq] at h; exact h ▸ hs)
+        | (simp only [Except.ok.injEq] at h; subst h; intro cost f hf
+           simp only [Option.some.injEq, Prod.mk.injEq] at hf
+           exact hf.2 ▸ good)
+
+theorem roundUp_mod_of_mod (a b u : Nat) (h : b % u = 0) : roundUp a b % u = 0 := by
+  unfold roundUp
+  have : b = u * (b / u) := by have := Nat.div_add_mod b u; omega
+  rw [this, ← Nat.mul_assoc, Nat.mul_comm _ u, Nat.mul_assoc]
+  exact Nat.mul_mod_right _ _
+
+theorem depthLoop_good {α : Type} (ops : CostOps α) (c : Ctx) (e : SearchEnv) (sh sw sd : Nat)
+    (hub : 0 < c.row.ofmUblock.width ∧ 0 < c.row.ofmUblock.height ∧ 0 < c.row.ofmUblock.depth)
+    (hsplit : splitDepth % c.row.ofmUblock.depth = 0) :
+    ∀ (fuel depth : Nat) (s s' : SearchState α), StateGood c sh sw sd s →
+      (0 < depth ∧ depth % c.row.ofmUblock.depth = 0) →
+      depthLoop ops c e sh sw sd fuel depth s = .ok s' → StateGood c sh sw sd s' := by
+  intro fuel
+  induction fuel with
+  | zero =>
+    intro depth s s' hs _ h
+    unfold depthLoop at h
+    split at h
+    · cases h
+    · simp only [Except.ok.injEq] at h; exact h ▸ hs
+  | succ n ih =>
+    intro depth s s' hs hd h
+    unfold depthLoop at h
+    split at h
+    · rename_i hle
+      dsimp only at h
+      split at h
+      · cases h
+      · rename_i s1 hs1
+        have hs0 : StateGood c sh sw sd ({ s with wontFit := Array.replicate (s.wfDim * s.wfDim) false } : SearchState α) := by
+          intro cost f hf; exact hs cost f hf
+        have h1 : StateGood c sh sw sd s1 := by
+          refine foldE_inv (searchStep ops c e depth) (StateGood c sh sw sd)
+            (fun hw => (0 < hw.1 ∧ hw.1 % c.row.ofmUblock.height = 0 ∧ hw.1 ≤ sh) ∧
+                       (0 < hw.2 ∧ hw.2 % c.row.ofmUblock.width = 0 ∧ hw.2 ≤ sw)) ?_ _ _ _ ?_ hs0 hs1
+          · intro s b s2 hI hP hstep
+            exact searchStep_good ops c e sh sw sd depth ⟨hd.1, hd.2, hle⟩ s b s2 hI hP hstep
+          · intro b hb
+            have := mem_hwPairs hb
+            exact ⟨mem_multiplesUpTo hub.2.1 this.1, mem_multiplesUpTo hub.1 this.2⟩
+        refine ih _ s1 s' h1 ?_ h
+        split
+        · exact ⟨Nat.lt_of_lt_of_le (by omega) (le_roundUp _ _ (by
+            have : splitDepth = 16 := by decide
+            omega)), roundUp_mod_of_mod _ _ _ hsplit⟩
+        · refine ⟨by omega, ?_⟩
+          rw [Nat.add_mod, hd.2, Nat.mod_self]; simp
+    · simp only [Except.ok.injEq] at h; exact h ▸ hs
+
+
+
+theorem splitDepth_pos : 0 < splitDepth := by decide
+
+theorem startDepth_good (row : Row) (ofmD sd : Nat) (hub : 0 < row.ofmUblock.depth)
+    (hsplit : splitDepth % row.ofmUblock.depth = 0) (hsd : sd % row.ofmUblock.depth = 0) :
+    0 < startDepth row ofmD sd ∧ startDepth row ofmD sd % row.ofmUblock.depth = 0 := by
+  unfold startDepth
+  have hd : 0 < max row.ofmUblock.depth (min sd splitDepth) ∧
+      max row.ofmUblock.depth (min sd splitDepth) % row.ofmUblock.depth = 0 := by
+    refine ⟨by omega, ?_⟩
+    rw [Nat.max_def, Nat.min_def]
+    repeat' split
+    all_goals first | exact hsd | exact hsplit | exact Nat.mod_self _
+  dsimp only
+  split
+  · exact ⟨Nat.lt_of_lt_of_le hd.1 (le_roundUp _ _ splitDepth_pos), roundUp_mod_of_mod _ _ _ hsplit⟩
+  · exact hd
+
+theorem findBlockConfig_some {α : Type} {ops : CostOps α} {row : Row} {a : FindArgs} {cfg : Config}
+    (hsplit : splitDepth % row.ofmUblock.depth = 0)
+    (h : findBlockConfig ops row a = .ok (some cfg)) :
+    (0 < row.ofmUblock.width ∧ 0 < row.ofmUblock.height ∧ 0 < row.ofmUblock.depth) ∧
+    a.kernel.inDomain = true ∧
+    ∃ c, a.ctx ops row = .ok c ∧ c.row = row ∧
+      GoodFound c (searchSpace row a.ofm).1 (searchSpace row a.ofm).2.1 (searchSpace row a.ofm).2.2
+        ⟨cfg.ofmBlock, cfg.ifmBlock, cfg.layout⟩ ∧
+      cfg.accType = c.acc ∧ cfg.isPartKernel = a.isPartKernel ops ∧ cfg.bankSize = row.configBankSize := by
+  unfold findBlockConfig at h
+  split at h; · cases h
+  rename_i hub
+  split at h; · cases h
+  rename_i hdom
+  split at h; · cases h
+  rename_i c hc
+  have hub' : 0 < row.ofmUblock.width ∧ 0 < row.ofmUblock.height ∧ 0 < row.ofmUblock.depth := by omega
+  have hrow : c.row = row := by
+    unfold FindArgs.ctx at hc
+    obtain ⟨g, _, rfl⟩ := mkCtx_ok hc
+    rfl
+  dsimp only at h
+  split at h; · cases h
+  rename_i s hs
+  split at h; · cases h
+  rename_i cost f hbest
+  simp only [Except.ok.injEq, Option.some.injEq] at h
+  subst h
+  refine ⟨hub', by simp only [Decidable.not_not] at hdom; exact hdom.1, c, hc, hrow, ?_, rfl, rfl, rfl⟩
+  have hsd : (searchSpace row a.ofm).2.2 % row.ofmUblock.depth = 0 := roundUp_mod _ _
+  have hgood := depthLoop_good ops c _ (searchSpace row a.ofm).1 (searchSpace row a.ofm).2.1 (searchSpace row a.ofm).2.2
+    (hrow ▸ hub') (hrow ▸ hsplit) _ _ _ s (fun _ _ hf => by cases hf)
+    (hrow ▸ startDepth_good row a.ofm.depth _ hub'.2.2 hsplit hsd) hs
+  exact hgood cost f hbest
+
+
+
+def Shape.toBlk (s : Shape) : Blk := ⟨s.width, s.height, s.depth⟩
+
+/-- the `try_block_config` call that re-derives a configuration found by `find_block_config`
+    (shapes as Blocks, as `get_arch_block_config` passes them) -/
+def FindArgs.toTry (a : FindArgs) (pk : Bool) : TryArgs :=
+  { bt := a.bt, ofm := a.ofm.toBlk, ifm := a.ifm.toBlk, ifm2 := a.ifm2.map Shape.toBlk, usesScalar := a.usesScalar,
+    ifmBits := a.ifmBits, isPartKernel := pk, kernel := a.kernel, lutBanks := a.lutBanks, scaled := a.scaled,
+    resampling := a.resampling }
+
+theorem toTry_ctx {α : Type} (ops : CostOps α) (row : Row) (a : FindArgs)
+    (hb : a.ifm.batch = 1 ∧ ∀ s, a.ifm2 = some s → s.batch = 1) :
+    (a.toTry (a.isPartKernel ops)).ctx row = a.ctx ops row := by
+  unfold TryArgs.ctx FindArgs.ctx FindArgs.toTry
+  have e : effIfmDepth (blkElements a.ifm.toBlk) a.ifm.toBlk.depth
+      ((a.ifm2.map Shape.toBlk).map fun b => (blkElements b, b.depth)) = a.ifmEff.depth := by
+    unfold effIfmDepth FindArgs.ifmEff
+    have e1 : ∀ s : Shape, s.batch = 1 → blkElements s.toBlk = s.elements := by
+      intro s hs; unfold blkElements Shape.toBlk Shape.elements; rw [hs, Nat.one_mul]
+    cases h2 : a.ifm2 with
+    | none => rfl
+    | some s2 =>
+      simp only [Option.map_some]
+      rw [e1 _ hb.1, e1 _ (hb.2 s2 h2)]
+      split <;> rfl
+  simp only [e]
+  rfl
+
+theorem searchSpace_le {row : Row} {tail : Nat} (hr : RowOk row tail) (ofm : Shape) :
+    (searchSpace row ofm).1 ≤ row.ofmBlockMax.height ∧ (searchSpace row ofm).2.1 ≤ row.ofmBlockMax.width ∧
+      (searchSpace row ofm).2.2 ≤ row.ofmBlockMax.depth := by
+  obtain ⟨⟨u1, u2, u3, _⟩, ⟨m1, m2, m3, _, _⟩, _⟩ := hr
+  unfold searchSpace
+  exact ⟨roundUp_le_of_mod _ _ _ u2 m2 (Nat.min_le_right _ _), roundUp_le_of_mod _ _ _ u1 m1 (Nat.min_le_right _ _),
+    roundUp_le_of_mod _ _ _ u3 m3 (Nat.min_le_right _ _)⟩
+
+theorem blockValid_of_ok {row : Row} {blk : Blk} (h : BlockOk row blk) : blockValid row blk = true := by
+  unfold BlockOk at h
+  unfold blockValid
+  simp only [Bool.and_eq_true, decide_eq_true_iff, beq_iff_eq]
+  omega
+
+/-- whatever the search returns is valid and `try_block_config` re-derives exactly the same configuration -/
+theorem find_valid_core {α : Type} {ops : CostOps α} {row : Row} {tail : Nat} {a : FindArgs} {cfg : Config}
+    (hr : RowOk row tail) (h : findBlockConfig ops row a = .ok (some cfg))
+    (hb : a.ifm.batch = 1 ∧ ∀ s, a.ifm2 = some s → s.batch = 1) :
+    BlockOk row cfg.ofmBlock ∧ tryBlockConfig row cfg.ofmBlock (a.toTry cfg.isPartKernel) = .ok (some cfg) := by
+  have hsplit : splitDepth % row.ofmUblock.depth = 0 := hr.2.1.2.2.2.1
+  obtain ⟨hub, hk, c, hc, hrow, hgood, hacc, hpk, hbank⟩ := findBlockConfig_some hsplit h
+  obtain ⟨sh1, sh2, sh3⟩ := searchSpace_le hr a.ofm
+  obtain ⟨gw, gh, gd, glay, gifm⟩ := hgood
+  dsimp only at gw gh gd glay gifm
+  rw [hrow] at gw gh gd
+  have hok : BlockOk row cfg.ofmBlock := by
+    unfold BlockOk; omega
+  refine ⟨hok, ?_⟩
+  unfold tryBlockConfig
+  rw [if_neg (by omega), if_neg (by simp [blockValid_of_ok hok])]
+  have hk' : (a.toTry cfg.isPartKernel).kernel.inDomain = true := hk
+  rw [if_neg (by simp [hk'])]
+  rw [hpk, toTry_ctx ops row a hb, hc]
+  dsimp only
+  rw [glay]
+  dsimp only
+  cases cfg
+  simp_all [FindArgs.toTry]
+
+
 end VelaVerif.Shram
